@@ -441,6 +441,6 @@ def body_b(case):
 
 def tests(tier):
     return [
-        TestSpec("definite-errors", gen_a_case, body_a, {"quick": 100, "thorough": 40000}, factors=CATALOGUE, tape=768),
-        TestSpec("mutations", gen_b, body_b, {"quick": 8000, "thorough": 1200000}, tape=1024),
+        TestSpec("definite-errors", gen_a_case, body_a, {"quick": 100, "thorough": 40000}, factors=CATALOGUE, tape=768, fuzz={"thorough": 40000}),
+        TestSpec("mutations", gen_b, body_b, {"quick": 8000, "thorough": 1200000}, tape=1024, fuzz={"thorough": 150000}),
     ]
